@@ -199,6 +199,23 @@ func (r *meshRun) startConnect(p int) {
 				}
 			}()
 			err = nw.Connect()
+			if err == nil {
+				// the application uses its connections the moment Connect returns, whatever the other parties are
+				// still doing: a first datum on every connection (read by the final check before anything else)
+				for _, peer := range nw.Peers {
+					if peer == nil || peer.ID == p {
+						continue
+					}
+					for k, c := range peer.Conns {
+						if c == nil {
+							continue
+						}
+						if e := c.SendUint32(earlyToken(p, peer.ID, k)); e == nil {
+							c.Flush()
+						}
+					}
+				}
+			}
 		}()
 		r.s.mu.Lock()
 		// Connect has returned at p: the property requires p to hold all its connections now.
@@ -216,6 +233,8 @@ func (r *meshRun) startConnect(p int) {
 		r.s.mu.Unlock()
 	}()
 }
+
+func earlyToken(p, q, k int) int { return 2000000 + p*10000 + q*100 + k }
 
 // missing inspects Network.Peers of party p the way an application would
 // right after Connect returned.
@@ -331,7 +350,18 @@ func (r *meshRun) finalCheck() {
 					if err := c.SendUint32(token(p, q, k)); err == nil {
 						c.Flush()
 					}
-					got, err := c.ReceiveUint32()
+					// first what the peer sent the moment its own Connect returned
+					early, err := c.ReceiveUint32()
+					if err == nil && early != earlyToken(q, p, k) {
+						mu.Lock()
+						res.viol("pairing", "party %d, connection %d to %d: the first datum received is %d, the peer sent %d right after its Connect returned (lost or cross-wired)", p, k, q, early, earlyToken(q, p, k))
+						mu.Unlock()
+						return
+					}
+					var got int
+					if err == nil {
+						got, err = c.ReceiveUint32()
+					}
 					mu.Lock()
 					defer mu.Unlock()
 					if err != nil {
